@@ -117,6 +117,61 @@ def Join.ops (fuel : Nat) : Ops (Join α β) :=
 
 end
 
+/-! ### JoinIter with failing sub-iterators
+
+`JoinIter.first()` / `next()` call `iter.Error()` right after moving the sub-iterators and return false when either
+reports an error (`Error()` = the backend's error, else the buffer iterator's).  The functions above are the
+error-free behaviour; the `…E` versions take the two error predicates. -/
+section
+variable {α β : Type} (A : Ops α) (B : Ops β) (eA : α → Bool) (eB : β → Bool)
+
+def Join.err (j : Join α β) : Bool := eB j.back || eA j.mem
+
+def Join.first0E (j : Join α β) : Join α β × Bool :=
+  let j1 : Join α β := { j with mem := (A.first j.mem).1, back := (B.first j.back).1 }
+  if Join.err eA eB j1 then (j1, false) else Join.first0 A B j
+
+def Join.next0E (j : Join α β) : Join α β × Bool :=
+  let j1 := Join.advance A B j
+  if Join.err eA eB j1 then (j1, false) else Join.choose A B j1
+
+def Join.skipE : Nat → Join α β → Join α β × Bool
+  | 0, j => (j, false)
+  | n + 1, j =>
+    if j.value.isEmpty then
+      let r := Join.next0E A B eA eB j
+      if r.2 then Join.skipE n r.1 else (r.1, false)
+    else (j, true)
+
+def Join.FirstE (fuel : Nat) (j : Join α β) : Join α β × Bool :=
+  let r := Join.first0E A B eA eB j
+  if r.2 then Join.skipE A B eA eB fuel r.1 else (r.1, false)
+
+def Join.NextE (fuel : Nat) (j : Join α β) : Join α β × Bool :=
+  let r := Join.next0E A B eA eB j
+  if r.2 then Join.skipE A B eA eB fuel r.1 else (r.1, false)
+
+end
+
+/-- An iterator that starts failing at its `failAt`-th positioning call (0 = never): from then on `First`/`Next`
+return false, `Key()`/`Value()` are nil and `Error()` is set. -/
+structure Faulty (σ : Type) where
+  inner : σ
+  calls : Nat := 0
+  failAt : Nat := 0
+
+def Faulty.failed {σ : Type} (s : Faulty σ) : Bool := s.failAt != 0 && s.calls >= s.failAt
+
+def faultyOps {σ : Type} (O : Ops σ) : Ops (Faulty σ) :=
+  { first := fun s =>
+      let s1 := { s with calls := s.calls + 1 }
+      if s1.failed then (s1, false) else let r := O.first s.inner; ({ s1 with inner := r.1 }, r.2),
+    next := fun s =>
+      let s1 := { s with calls := s.calls + 1 }
+      if s1.failed then (s1, false) else let r := O.next s.inner; ({ s1 with inner := r.1 }, r.2),
+    key := fun s => if s.failed then [] else O.key s.inner,
+    value := fun s => if s.failed then [] else O.value s.inner }
+
 /-- First, then Next until it returns false, collecting (Key(), Value()) — at most `n` entries. -/
 def collectFrom {σ : Type} (O : Ops σ) : Nat → σ → Entries
   | 0, _ => []
